@@ -117,7 +117,7 @@ int run_tfel_check(const std::string& root, long njobs, bool discard, bool sync)
   int saved = dup(1), nul = open("/dev/null", O_WRONLY);
   dup2(nul, 1); close(nul);
   int r = -2;
-  try { r = tfel_check_main(int(av.size()), av.data()); } catch (...) { std::cout.flush(); fflush(stdout); dup2(saved, 1); close(saved); throw; }
+  try { vsim::Monitored code_under_test; r = tfel_check_main(int(av.size()), av.data()); } catch (...) { std::cout.flush(); fflush(stdout); dup2(saved, 1); close(saved); throw; }
   std::cout.flush(); fflush(stdout); dup2(saved, 1); close(saved);
   return r;
 }
